@@ -295,7 +295,7 @@ def limb_rules(r, work, tier, seed):
     return cnt, und, len(types)
 
 
-LIMB_FLOOR = {"quick": 140, "thorough": 1500}
+LIMB_FLOOR = {"quick": 144, "thorough": 1800}
 
 
 def run(tier, seed, work):
